@@ -29,7 +29,12 @@ def gen_cfgs(rng, n):
         origs = {nm: str(rng.choice([0, 1, 10, 101, -7, 2 ** 31, 2 ** 64 + 3, 12345678901234567890])) for nm in names}
         listed = [nm for nm in names if rng.random() < 0.5]
         table = {nm: [str(rng.choice([1, 5, 9, 2 ** 40, -3, 77])) for _ in range(3)] for nm in listed}
-        cfgs.append({"id": str(i), "u": rng.choice(["simple", "table"]), "names": names, "origs": origs, "table": table,
+        if listed and rng.random() < 0.25:
+            table[rng.choice(listed)] = []                  # an EMPTY configured list: every replication is beyond it
+        rest = [nm for nm in names if nm not in table]
+        table2 = {nm: [str(rng.choice([2, 6, 10, 2 ** 41, -4, 78])) for _ in range(3)] for nm in rest if rng.random() < 0.5}
+        cfgs.append({"id": str(i), "u": rng.choice(["simple", "table", "table", "chained", "custom", "shared"]), "names": names, "origs": origs,
+                     "table": table, "table2": table2,
                      "rc": rng.choice(["negative", "first", "inside", "last", "beyond", "far", "illtyped", "inside", "last"]),
                      "bulk": rng.random() < 0.4})
         if i % 5 == 0 and k >= 3:
@@ -85,12 +90,16 @@ def run(ctx: Ctx):
     nodes, edges, inits, r = tlc.dump_graph("SeedUpdate", "SeedUpdate.cfg")
     ctx.add_tlc("SeedUpdate outcome table", r)
     rows = [n["row"] for n in nodes.values()]
+    outcome = {(r_["u"], r_["l"], r_["rc"]): r_["out"] for r_ in rows}
     # S->C: execute the table (one configuration per row)
     cfgs = []
     for i, row in enumerate(rows):
         names = ["default", "service"]
-        table = {"default": ["11", "12", "13"], "service": ["21", "22", "23"]} if row["l"] == "listed" else {"other": ["1", "2", "3"]}
-        cfgs.append({"id": f"row{i}", "u": row["u"], "names": names, "origs": {"default": "10", "service": "20"}, "table": table, "rc": row["rc"], "bulk": False})
+        lists = {"default": ["11", "12", "13"], "service": ["21", "22", "23"]}
+        table = {"listed": lists, "empty": {"default": [], "service": []}}.get(row["l"], {"other": ["1", "2", "3"]})
+        table2 = lists if row["l"] == "fb_listed" else {"other2": ["4", "5", "6"]}
+        cfgs.append({"id": f"row{i}", "u": row["u"], "names": names, "origs": {"default": "10", "service": "20"}, "table": table, "table2": table2,
+                     "rc": row["rc"], "bulk": False})
     hashseeds = [0, 1, 12345, "random"] if ctx.quick else [0, 1, 2, 3, 12345, 999, "random", "random"]
     extra = gen_cfgs(ctx.rng, ctx.pick(150, 1500))
     results = run_children(cfgs + extra, hashseeds, ctx.rng)
@@ -122,10 +131,15 @@ def run(ctx: Ctx):
         e = r0.event or {}
         if e.get("a") == "Bulk":
             key, why = "bulk", "update_seeds() gives different seeds in different processes / listing orders"
-        elif e.get("res") == "ok" and e.get("seed_after") == e.get("want_from_list", "") or e.get("res") == "error":
-            key, why = f"outcome|{e.get('u')}|{e.get('l')}|{e.get('rc')}", "outcome differs from the specification table / stream changed by a refused update"
         else:
-            key, why = f"not_a_function|{e.get('u')}|{e.get('l')}", "the seed (or the first draws) for the same (name, original seed, r) differs from an earlier observation in another process / order"
+            out = outcome.get((e.get("u"), e.get("l"), e.get("rc")))
+            conforms = {"refused": e.get("res") == "error" and e.get("seed_after") == e.get("seed_before") and e.get("draws_after") == e.get("draws_before_peek"),
+                        "from_list": e.get("res") == "ok" and e.get("seed_after") == e.get("want_from_list"),
+                        "computed": e.get("res") == "ok"}.get(out, False)
+            if not conforms:
+                key, why = f"outcome|{e.get('u')}|{e.get('l')}|{e.get('rc')}", f"SeedUpdate.tla gives outcome {out!r} (refused: error and stream unchanged; from_list: the configured / delegated seed)"
+            else:
+                key, why = f"not_a_function|{e.get('u')}|{e.get('l')}", "the seed (or the first draws) for the same (name, original seed, r) differs from an earlier observation in another process / order / updater history"
         ctx.violation(key, f"event {r0.upto + 1} of the concatenated children trace: {json.dumps(e)[:400]} :: {why}", {"event": e})
         cur = cur[:r0.upto] + cur[r0.upto + 1:]
         rej, _ = traces.validate("TraceSeedUpdate", "TraceSeedUpdate.cfg", [cur], timeout=1800)
